@@ -57,7 +57,7 @@ func safePrimePairRule(P *Program, R *Report) {
 		if !isCmp {
 			return false
 		}
-		ts := be.At[cmp]
+		ts := be.at(cmp)
 		if len(ts) != 2 {
 			return false
 		}
@@ -80,7 +80,7 @@ func safePrimePairRule(P *Program, R *Report) {
 			recv = r.Results[0]
 		}
 	}
-	mp(P, R, rule, kGenPair+":p-residue", "(p, q) returned => (p>>1) mod 8 != 1 was tested for p", fn, AcceptNonNil(0), &MustPass{NoInterproc: true, Match: isTest})
+	mp(P, R, rule, kGenPair+":p-residue", "(p, q) returned => (p>>1) mod 8 != 1 was tested for p", fn, AcceptNonNil(0), &MustPass{Match: isTest})
 	if recv != nil {
 		// the tested value is the returned p
 		ok := false
@@ -99,11 +99,11 @@ func safePrimePairRule(P *Program, R *Report) {
 			return
 		}
 		n++
-		r := (&MustPass{P: P, NoInterproc: true, Match: isTest}).MustReach(fn, c)
+		r := (&MustPass{P: P, Match: isTest}).MustReach(fn, c)
 		R.decide(rule, kGenPair+":candidates-tested", "a prime is kept as a candidate for q only after passing the same residue test", r.Holds, r.Path, P.Pos(c.Pos()))
 	})
 	R.decide(rule, kGenPair+":candidate-list", "candidate primes are kept for later matching", n >= 1, fmt.Sprintf("%d appends", n), P.Pos(fn.Pos()))
-	mp(P, R, rule, kGenPair+":q-from-findMatch", "(p, q) returned => q is the non-nil result of findMatch(candidates, param, p, ...)", fn, AcceptNonNil(0), &MustPass{NoInterproc: true, Match: func(a Atom) bool {
+	mp(P, R, rule, kGenPair+":q-from-findMatch", "(p, q) returned => q is the non-nil result of findMatch(candidates, param, p, ...)", fn, AcceptNonNil(0), &MustPass{Match: func(a Atom) bool {
 		c, _ := callAndResult(a.V)
 		return c != nil && calleeName(c) == kFindM && a.Want == NonNil && c.Call.Args[2] == recv
 	}})
@@ -131,7 +131,7 @@ func safePrimePairRule(P *Program, R *Report) {
 		return
 	}
 	bm := P.bigEval(fm)
-	mp(P, R, rule, kFindM+":modulus-length", "q returned => BitLen(p*q) == Ln was tested on the product itself", fm, AcceptNonNil(0), &MustPass{NoInterproc: true, Match: func(a Atom) bool {
+	mp(P, R, rule, kFindM+":modulus-length", "q returned => BitLen(p*q) == Ln was tested on the product itself", fm, AcceptNonNil(0), &MustPass{Match: func(a Atom) bool {
 		g, ok := parseGuard(a, nil)
 		if !ok || g.Kind != "bitlen" || g.Rel != "==" || !(g.BoundA.String() == "Ln" || g.BoundA.String() == "base.Ln") {
 			return false
@@ -140,10 +140,10 @@ func safePrimePairRule(P *Program, R *Report) {
 		if g.Call == nil {
 			return false
 		}
-		ts := bm.At[g.Call]
+		ts := bm.at(g.Call)
 		return len(ts) == 1 && ts[0].equal(tmul(tsym("arg#2"), tsym("arg#0[#i]")))
 	}})
-	mp(P, R, rule, kFindM+":residues-differ", "q returned => p mod 8 != q mod 8 was tested", fm, AcceptNonNil(0), &MustPass{NoInterproc: true, Match: func(a Atom) bool {
+	mp(P, R, rule, kFindM+":residues-differ", "q returned => p mod 8 != q mod 8 was tested", fm, AcceptNonNil(0), &MustPass{Match: func(a Atom) bool {
 		bo, ok := a.V.(*ssa.BinOp)
 		if !ok {
 			return false
@@ -160,7 +160,7 @@ func safePrimePairRule(P *Program, R *Report) {
 		if !ne {
 			return false
 		}
-		ts := bm.At[cmp]
+		ts := bm.at(cmp)
 		if len(ts) != 2 {
 			return false
 		}
@@ -197,7 +197,7 @@ func safeprimeGenerateRule(P *Program, R *Report) {
 		R.bad(rule, kSPGen+":result", "a prime is returned", "no non-nil return", P.Pos(fn.Pos()))
 		return
 	}
-	mp(P, R, rule, kSPGen+":safe-prime-tested", "a prime is returned only after ProbablySafePrime(returned value, k >= 40) was true", fn, AcceptNonNil(0), &MustPass{NoInterproc: true, Match: func(a Atom) bool {
+	mp(P, R, rule, kSPGen+":safe-prime-tested", "a prime is returned only after ProbablySafePrime(returned value, k >= 40) was true", fn, AcceptNonNil(0), &MustPass{Match: func(a Atom) bool {
 		c, ok := callAtom(a, True, "safeprime.ProbablySafePrime")
 		if !ok || siteOf(c.Call.Args[0]) != siteOf(retV) {
 			return false
@@ -228,17 +228,17 @@ func safeprimeGenerateRule(P *Program, R *Report) {
 // probablySafePrimeRule: ProbablySafePrime is true only if x and x>>1 both pass ProbablyPrime (shared by C16.b, C19.h).
 func probablySafePrimeRule(P *Program, R *Report, rule string) {
 	if ps := mustFunc(P, R, rule, "safeprime.ProbablySafePrime"); ps != nil {
-		mp(P, R, rule, FuncKey(ps)+":both", "ProbablySafePrime is true only if x and (x-1)/2 are both probably prime", ps, AcceptTrue(0), &MustPass{NoInterproc: true, Match: func(a Atom) bool {
+		mp(P, R, rule, FuncKey(ps)+":both", "ProbablySafePrime is true only if x and (x-1)/2 are both probably prime", ps, AcceptTrue(0), &MustPass{Match: func(a Atom) bool {
 			c, _ := callAndResult(a.V)
 			return c != nil && bigMethod(c) == "ProbablyPrime" && a.Want == True && desc(c.Call.Args[0]) == "arg#0"
 		}})
 		bp := P.bigEval(ps)
-		mp(P, R, rule, FuncKey(ps)+":half", "…and (x-1)/2 (or x>>1) is probably prime", ps, AcceptTrue(0), &MustPass{NoInterproc: true, Match: func(a Atom) bool {
+		mp(P, R, rule, FuncKey(ps)+":half", "…and (x-1)/2 (or x>>1) is probably prime", ps, AcceptTrue(0), &MustPass{Match: func(a Atom) bool {
 			c, _ := callAndResult(a.V)
 			if c == nil || bigMethod(c) != "ProbablyPrime" || a.Want != True || desc(c.Call.Args[0]) == "arg#0" {
 				return false
 			}
-			ts := bp.At[c]
+			ts := bp.at(c)
 			if len(ts) < 1 {
 				return false
 			}
@@ -305,7 +305,7 @@ func generateKeyPairRule(P *Program, R *Report) {
 		sv := sStore.Val
 		for _, f := range []string{"P", "Q"} {
 			f := f
-			r := (&MustPass{P: P, NoInterproc: true, Match: func(a Atom) bool {
+			r := (&MustPass{P: P, Match: func(a Atom) bool {
 				g, ok := parseGuard(a, nil)
 				if !ok || g.Kind != "int" || g.Rel != "==" || g.BoundA.String() != "1" {
 					return false
@@ -315,7 +315,7 @@ func generateKeyPairRule(P *Program, R *Report) {
 			}}).MustReach(fn, sStore)
 			R.decide(rule, kGenKey+":S-residue-mod-"+f, "S accepted => Legendre symbol of S modulo "+f+" is 1", r.Holds, r.Path, P.Pos(sStore.Pos()))
 		}
-		r := (&MustPass{P: P, NoInterproc: true, Match: func(a Atom) bool {
+		r := (&MustPass{P: P, Match: func(a Atom) bool {
 			g, ok := P.guardOf(a)
 			return ok && g.Kind == "big" && sameValue(g.SubjV, sv) && g.Rel == "<=" && isN(g.Bound)
 		}}).MustReach(fn, sStore)
@@ -362,11 +362,11 @@ func generateKeyPairRule(P *Program, R *Report) {
 		}
 		R.decide(rule, kGenKey+":"+name+":form", name+" = S^x mod N", okBase, "", P.Pos(expCall.Pos()))
 		R.decide(rule, kGenKey+":"+name+":fresh-x", "its exponent x is a fresh RandomBigInt drawn for this base", okFresh, "", P.Pos(expCall.Pos()))
-		lo := (&MustPass{P: P, NoInterproc: true, Match: func(at Atom) bool {
+		lo := (&MustPass{P: P, Match: func(at Atom) bool {
 			gd, ok := P.guardOf(at)
 			return ok && gd.Kind == "big" && sameValue(gd.SubjV, x) && gd.Rel == ">" && gd.Bound.equal(tconst(2))
 		}}).MustReach(fn, expCall)
-		hi := (&MustPass{P: P, NoInterproc: true, Match: func(at Atom) bool {
+		hi := (&MustPass{P: P, Match: func(at Atom) bool {
 			gd, ok := P.guardOf(at)
 			return ok && gd.Kind == "big" && sameValue(gd.SubjV, x) && gd.Rel == "<" && isN(gd.Bound)
 		}}).MustReach(fn, expCall)
@@ -422,7 +422,7 @@ func generateKeyPairRule(P *Program, R *Report) {
 			}
 		}
 		R.decide(rule, kGenKey+":revocation", "the revocation key pair is generated for this very key pair", okCall, "", P.Pos(fn.Pos()))
-		mp(P, R, rule, kGenKey+":revocation-error", "a key pair is returned only if that succeeded", fn, AcceptNilErr(2), &MustPass{NoInterproc: true, Match: func(a Atom) bool {
+		mp(P, R, rule, kGenKey+":revocation-error", "a key pair is returned only if that succeeded", fn, AcceptNilErr(2), &MustPass{Match: func(a Atom) bool {
 			_, ok := callAtom(a, Nil, kGenRevKP)
 			return ok
 		}})
@@ -438,7 +438,7 @@ func generateKeyPairRule(P *Program, R *Report) {
 			okT = t.equal(termFn("Mod", tmul(tsym(rr), tsym(rr)), tsym("arg#0")))
 		}
 		R.decide(rule, "common.RandomQR:square", "RandomQR returns r^2 mod n", okT, "got "+gotT, P.Pos(rq.Pos()))
-		mp(P, R, rule, "common.RandomQR:unit", "…only for r with gcd(r, n) == 1", rq, AcceptAny(), &MustPass{NoInterproc: true, Match: func(a Atom) bool {
+		mp(P, R, rule, "common.RandomQR:unit", "…only for r with gcd(r, n) == 1", rq, AcceptAny(), &MustPass{Match: func(a Atom) bool {
 			x, y, ok := parseEq(a)
 			if !ok {
 				return false
@@ -639,7 +639,7 @@ func goroutineProtocolRule(P *Program, R *Report, rule string) {
 	R.decide(rule, kGenConc+":close-sites", "the stop signal has a close site", nClose >= 1, fmt.Sprintf("%d", nClose), P.Pos(fn.Pos()))
 	// consumers
 	if gp := mustFunc(P, R, rule, kGenPair); gp != nil {
-		mp(P, R, rule, kGenPair+":stops-workers", "every return path closes the stop channel handed to GenerateConcurrent", gp, AcceptAny(), &MustPass{NoInterproc: true, Instr: func(_ *ssa.Function, i ssa.Instruction) bool {
+		mp(P, R, rule, kGenPair+":stops-workers", "every return path closes the stop channel handed to GenerateConcurrent", gp, AcceptAny(), &MustPass{Instr: func(_ *ssa.Function, i ssa.Instruction) bool {
 			c, ok := i.(*ssa.Call)
 			return ok && isCallTo(c, "builtin:close") && desc(c.Call.Args[0]) == "makechan"
 		}})
@@ -685,7 +685,7 @@ func validateKeyRule(P *Program, R *Report, rule string) {
 	prv := "<gabikeys.PrivateKey>"
 	for _, pr := range [][2]string{{"P", "PPrime"}, {"Q", "QPrime"}} {
 		pr := pr
-		mp(P, R, rule, FuncKey(fn)+":"+pr[0]+"-relation", "nil => ("+pr[0]+"-1)>>1 == "+pr[1], fn, AcceptNilErr(0), &MustPass{NoInterproc: true, Match: func(a Atom) bool {
+		mp(P, R, rule, FuncKey(fn)+":"+pr[0]+"-relation", "nil => ("+pr[0]+"-1)>>1 == "+pr[1], fn, AcceptNilErr(0), &MustPass{Match: func(a Atom) bool {
 			x, y, ok := parseEq(a)
 			if !ok {
 				return false
@@ -698,7 +698,7 @@ func validateKeyRule(P *Program, R *Report, rule string) {
 			if !isC {
 				return false
 			}
-			ts := be.At[cmp]
+			ts := be.at(cmp)
 			if len(ts) != 2 {
 				return false
 			}
@@ -707,7 +707,7 @@ func validateKeyRule(P *Program, R *Report, rule string) {
 			_ = y
 			return (ts[0].equal(w) && ts[1].equal(tsym(prv+"."+pr[1]))) || (ts[1].equal(w) && ts[0].equal(tsym(prv+"."+pr[1])))
 		}})
-		mp(P, R, rule, FuncKey(fn)+":"+pr[0]+"-safe-prime", "nil => ProbablySafePrime("+pr[0]+", k >= 40)", fn, AcceptNilErr(0), &MustPass{NoInterproc: true, Match: func(a Atom) bool {
+		mp(P, R, rule, FuncKey(fn)+":"+pr[0]+"-safe-prime", "nil => ProbablySafePrime("+pr[0]+", k >= 40)", fn, AcceptNilErr(0), &MustPass{Match: func(a Atom) bool {
 			c, ok := callAtom(a, True, "safeprime.ProbablySafePrime")
 			if !ok || desc(c.Call.Args[0]) != prv+"."+pr[0] {
 				return false
